@@ -223,6 +223,39 @@ def rule_label(repo: Repo, rep: Report) -> int:
     return n + 1
 
 
+def search_tabulated(ci: ClassInfo, fi: FuncInfo):
+    """The modulator's forward run (own arithmetic) on every bit group, with a *permuted* label table and distinct marker
+    points: the group that is row i of the table must be sent as point i (finite: all 2^b groups, b = 2 and 4)."""
+    funcs = {f"self.{nm}": f_.node for nm, f_ in ci.methods.items() if nm not in ("forward", "__init__")}
+    count = 0
+    for b in (2, 4):
+        M = 2**b
+        perm = [(5 * i + 3) % M for i in range(M)]  # a permutation of 0..M-1 (5 is odd)
+        table = [[float(v) for v in bits_of(perm[i], b)] for i in range(M)]
+        points = [complex(i + 1, -(i + 1)) for i in range(M)]
+        x = [float(v) for g in range(M) for v in bits_of(g, b)]
+        attrs = {"self.bit_patterns": table, "self.constellation": points, "self.order": M, "self._bits_per_symbol": b, "self.bits_per_symbol": b, "self.gray_coding": True, "self.normalize": False}
+        for layout in ("flat", "batch"):
+            xin = x if layout == "flat" else [x[: len(x) // 2], x[len(x) // 2:]]
+            try:
+                run_fragment(fi.body, {"x": xin, "args": [], "kwargs": {}}, attrs, funcs=funcs, materialise=True, max_steps=400000)
+                return None, "no value returned"
+            except FragReturn as ret:
+                out = ret.value
+            except (Unfoldable, FragRaise, TypeError, IndexError, ValueError) as exc:
+                return None, str(exc)
+            flat = [z for row in out for z in row] if layout == "batch" and isinstance(out, list) and out and isinstance(out[0], list) else out
+            if not (isinstance(flat, list) and len(flat) == M and all(isinstance(z, (int, float, complex)) for z in flat)):
+                return None, f"output for the {M} groups is not {M} symbols"
+            for g in range(M):
+                i = perm.index(g)
+                if complex(flat[g]) != points[i]:
+                    sent = points.index(complex(flat[g])) if complex(flat[g]) in points else None
+                    return VIOLATION, f"order {M}: the bit group {bits_of(g, b)} is row {i} of the label table but is sent as {'point ' + str(sent) if sent is not None else repr(flat[g])}: the demodulator reads the labels at the nearest point's own index, so these bits come back as row {sent}'s label"
+                count += 1
+    return OK, f"every bit group is sent as the point whose label row it is ({count} groups, 1-D and batched input)"
+
+
 def search_idiom(rep: Report, ci: ClassInfo, fi: FuncInfo) -> int:
     loops = [l for l in fi.body if isinstance(l, ast.For) and match(l.iter, "range(self.order)") is not None and isinstance(l.target, ast.Name)]
     if len(loops) != 1:
@@ -234,7 +267,11 @@ def search_idiom(rep: Report, ci: ClassInfo, fi: FuncInfo) -> int:
     masks = [s for s in lp.body if isinstance(s, ast.Assign) and isinstance(s.targets[0], ast.Name) and "torch.all" in unparse(s.value)]
     stores = [s for s in lp.body if isinstance(s, ast.Assign) and isinstance(s.targets[0], ast.Subscript)]
     if len(pats) != 1 or len(masks) != 1 or len(stores) != 1:
-        rep.undecided("LABEL", fi, f"{ci.name}: search loop body", f"{len(pats)} pattern / {len(masks)} mask / {len(stores)} store statements")
+        est, edetail = search_tabulated(ci, fi)
+        if est is None:
+            rep.undecided("LABEL", fi, f"{ci.name}: search loop body", f"{len(pats)} pattern / {len(masks)} mask / {len(stores)} store statements; tabulation: {edetail}")
+        else:
+            rep.add("LABEL", fi, f"{ci.name}: bit group -> point, tabulated over all bit groups with a permuted label table", est, edetail, node=lp)
         return 1
     pname = pats[0].targets[0].id
     mname = masks[0].targets[0].id
